@@ -6,7 +6,7 @@ Ledger format: every file /verif/contracts/<crate>/<name>.rs is a Rust module th
 *child module* of one source file of the real crate (in a scratch copy of /repo's working tree).
 Directive comments in it drive everything:
 
-  // @module file=<path in repo> [name=<mod ident>]
+  // @module file=<path in repo> [name=<mod ident>] [modcfg='feature="x"']   (modcfg: extra cfg predicate guarding the module)
         which real source file this module is appended to (as `#[cfg(kani)] mod <name>;`)
   // @attr file=<path in repo> anchor=<text of the fn header, e.g. "fn pc1("> [nth=1] :: <attribute text>
         insert `#[cfg_attr(kani, <attribute text>)]` on the line before the anchored item
@@ -63,6 +63,7 @@ class Module:
         self.attrs = []         # dicts: file, anchor, nth, text
         self.configs = {}
         self.crateattrs = []
+        self.modcfg = None
         self.obs = []
         self.kind = "kani"
         self.parse()
@@ -85,6 +86,7 @@ class Module:
             if kind == "module":
                 kv = parse_kv(rest)
                 self.file = kv["file"]
+                self.modcfg = kv.get("modcfg")   # extra cfg predicate for the injected module, e.g. feature="hazmat"
                 if "name" in kv:
                     self.name = kv["name"]
             elif kind == "attr":
@@ -182,7 +184,7 @@ class Scratch:
                     pass
                 dst.write_text(m.path.read_text().replace("@VERIF@", str(VERIF)) + PLAYBACK_PRELUDE)
                 tails.setdefault(m.file, []).append(
-                    f'#[cfg(kani)] #[allow(unsafe_code, dead_code, unused_imports, unused, missing_docs, clippy::all)] #[path = "{dst}"] pub(crate) mod {m.name};')
+                    f'#[cfg({"all(kani, " + m.modcfg + ")" if m.modcfg else "kani"})] #[allow(unsafe_code, dead_code, unused_imports, unused, missing_docs, clippy::all)] #[path = "{dst}"] pub(crate) mod {m.name};')
                 for a in m.attrs:
                     ap = self.src / a["file"]
                     if not ap.exists():
